@@ -2,6 +2,7 @@ package checks
 
 import (
 	"fmt"
+	"strings"
 	"io"
 
 	"google.golang.org/protobuf/encoding/protowire"
@@ -49,7 +50,11 @@ func errClass(n int) model.WireDefect {
 		return model.WireOK
 	}
 	// the documented errors of ParseError (plain errors, texts are stable)
-	switch err.Error() {
+	txt := err.Error()
+	if strings.HasPrefix(txt, "proto:") { // internal/errors prefix, followed by a randomised space rune
+		txt = strings.TrimLeft(txt[len("proto:"):], " \u00a0")
+	}
+	switch txt {
 	case "invalid field number":
 		return model.WireFieldNum
 	case "variable length integer overflow":
